@@ -82,7 +82,7 @@ TrPubKey ==
     /\ LET e == E
            valid == KeyValid(e.bytes, SrvN)
        IN /\ UNCHANGED <<obj, out>>
-          /\ Done(<< <<"C14.total", ~ImplPanic(e)>>,
+          /\ DonePure(<< <<"C14.total", ~ImplPanic(e)>>,
                      <<"C04.iff", ~ImplPanic(e) => ((e.res.kind = "ok") = valid)>>,
                      <<"C04.kind", e.res.kind = "err" => e.res.err = KeyErrKind(e.bytes)>>,
                      <<"C04.unchanged", e.res.kind = "ok" => e.res.bytes = e.bytes>>,
@@ -232,7 +232,7 @@ TrInterleave ==
     /\ LET e == E
            z == LeadingZeros(e.S)
        IN /\ UNCHANGED <<obj, out>>
-          /\ Done(<< <<"C14.total", ~ImplPanic(e)>>,
+          /\ DonePure(<< <<"C14.total", ~ImplPanic(e)>>,
                      <<"C03.interleave", ~ImplPanic(e) => e.res.K = SrpInterleave(e.S)>> >>,
                   {"Interleave", "Interleave.z" \o ToString(z)})
     /\ UNCHANGED <<seen, acc>>
